@@ -30,7 +30,7 @@ ASSUMPTIONS = ["particle variables are addressed by pid and never compactified (
 TIERS = {"quick": dict(runs=9 + 400, budget_s=45, shrink=80),
          "thorough": dict(runs=9 + 25000, budget_s=600, shrink=120)}
 EXHAUSTIVE = {"quick": False, "thorough": False}
-REQUIRED_PROBES = ["exhaustive_batch", "random_batch", "model_run", "model_death_then_release"]
+REQUIRED_PROBES = ["exhaustive_batch", "random_batch", "model_run", "model_death_then_release", "model_warm_start"]
 
 MODEL_PROFILE = gen.profile(
     nsteps=(4, 30), p_reversed=0.15, rows=(2, 8), p_late_rows=0.9, p_continuous=0.4, p_ibm=0.9, p_kills=0.9,
@@ -53,6 +53,19 @@ def generate(seed: int, tier: str, idx: int) -> dict:
         return {"plan": {"kind": "random", "programs": progs}}
     sc = gen.gen_scenario(seed, MODEL_PROFILE)
     sc["plan"] = {"kind": "model"}
+    if s.chance(0.3):
+        # continued from its first completed output file, with a per-particle variable that the release file supplies,
+        # that has a configured default and that the first run did not write: after the restart it holds the default
+        # for the particles released so far and must keep following the identifiers of those released later
+        sc["output"]["numrec"] = s.randint(1, 3)
+        sc["output"]["period"] = s.pick([1, 1, 2])
+        sc.get("spell", {}).pop("period", None)
+        gen.make_restartable(sc)
+        sc["release"]["extra"].append({"name": "pw", "type": "float", "particle": True, "state_default": -1.0})
+        sc["release"].pop("col_order", None)
+        for r in sc["release"]["rows"]:
+            r["pw"] = 100.0 + r["tag"]
+        sc["plan"]["warm"] = True
     return sc
 
 
@@ -250,6 +263,13 @@ def execute_programs(sc) -> Result:
     return res
 
 
+def _same_values(a, b) -> bool:
+    """equal as values: time-typed variables may change their resolution (seconds / microseconds) on the way"""
+    if a.dtype.kind == "M" or b.dtype.kind == "M":
+        return bool(np.array_equal(a.astype("M8[us]"), b.astype("M8[us]")))
+    return bool(np.array_equal(a.astype(str), b.astype(str)))
+
+
 def check_identity(res: Result, rec, R) -> None:
     """identity invariants over the snapshots and the output records of a model run"""
     tag_of: dict[int, int] = {}
@@ -264,6 +284,11 @@ def check_identity(res: Result, rec, R) -> None:
         for name in s["ivars"]:
             if len(s["vars"][name]) != len(pid):
                 res.add(Violation("C05.alignment", s["step"], f"{s['label']}: len({name})", len(s["vars"][name]), len(pid)))
+        for name in s["pvars"]:
+            # addressed by identifier: one value for every identifier handed out so far
+            if len(s["vars"][name]) != s["npid"]:
+                res.add(Violation("C05.particle_var", s["step"], f"{s['label']}: len({name})", len(s["vars"][name]),
+                                  f"npid = {s['npid']}"))
         if "tag" in s["vars"] and len(s["vars"]["tag"]) == len(pid):
             for p, t in zip(pid.tolist(), s["vars"]["tag"].tolist()):
                 if p in tag_of and tag_of[p] != t:
@@ -281,7 +306,7 @@ def check_identity(res: Result, rec, R) -> None:
                 a, b = prev["vars"].get(name), s["vars"][name]
                 if a is not None and len(b) < len(a):
                     res.add(Violation("C05.particle_var", s["step"], f"{s['label']}: {name} shrank", len(b), len(a)))
-                elif a is not None and len(a) and not np.array_equal(a.astype(str), b[: len(a)].astype(str)):
+                elif a is not None and len(a) and not _same_values(a, b[: len(a)]):
                     res.add(Violation("C05.particle_var", s["step"], f"{s['label']}: {name} of old pids changed",
                                       b[: len(a)], a))
         if len(pid):
@@ -319,6 +344,39 @@ def execute_model(sc) -> Result:
         if died_at and rel_at and max(rel_at) > min(died_at):
             res.probes["model_death_then_release"] += 1
             res.nontrivial = True
+        files = readback.list_output_files(d)
+        if sc["plan"].get("warm") and run.error is None and len(files) >= 2:
+            def edit(cfg):
+                cfg["warm_start"]["variables"] = [*cfg["warm_start"]["variables"], "pw"]
+                return cfg
+
+            run2 = driver.run_scenario(sc, d, write=False, warm_file=str(files[0]), out_name="warm_001.nc",
+                                       cfg_name="warm", cfg_edit=edit)
+            account_run(res, run2, sc)
+            v, foreign = crash_violation(ID, run2, ANCHORS + ("ladim/warm_start.py",))
+            if v is not None:
+                res.add(v)
+            if run2.error is None:
+                res.probes["model_warm_start"] += 1
+                check_identity(res, run2.rec, readback.Records(readback.list_output_files(d, "warm")))
+                rows = {r["tag"]: r for r in sc["release"]["rows"]}
+                first = run2.rec.snaps[0]["npid"] if run2.rec.snaps else 0
+                for sn in run2.rec.snaps:
+                    pw, pid, tag = sn["vars"].get("pw"), sn["vars"]["pid"], sn["vars"].get("tag")
+                    if pw is None or tag is None or len(tag) != len(pid):
+                        continue
+                    for p_, t_ in zip(pid.tolist(), tag.tolist()):
+                        want = -1.0 if p_ < first else rows[int(t_)]["pw"]
+                        got = pw[p_] if p_ < len(pw) else None
+                        if got is None or float(got) != want:
+                            res.add(Violation("C05.particle_var", sn["step"], f"{sn['label']}: pw of pid {p_} after a warm start",
+                                              got, want))
+                            break
+                    if len(res.violations) > 3:
+                        break
+                if any(sn["npid"] > first for sn in run2.rec.snaps) and first and any(
+                        len(sn["vars"]["pid"]) < sn["npid"] for sn in run2.rec.snaps[:1]):
+                    res.probes["model_warm_start_after_death_then_release"] += 1
     finally:
         world.rm_dir(d)
     return res
